@@ -258,7 +258,7 @@ def run_compiled(idx, rng, sh):
 
 
 # ---------------------------------------------------------------- description-table files
-PLACEHOLDERS = ('<unknown', 'unrecognized', 'processor specific', 'os specific', 'operating system specific', '<corrupt', 'unknown:',
+PLACEHOLDERS = ('<unknown', 'unrecognized', 'processor specific', 'processor-specific', 'application-specific', 'os specific', 'operating system specific', '<corrupt', 'unknown:',
                 '<other>', 'unknown')
 
 
@@ -369,6 +369,20 @@ def descr_tables():
     T.append(('e_machine', '-h', entries(D._DESCR_E_MACHINE, E.ENUM_E_MACHINE), simple(machine=None), 'machine:'))
     T.append(('e_type', '-h', entries(D._DESCR_E_TYPE, E.ENUM_E_TYPE), simple(etype=None), ' type:'))
     T.append(('osabi', '-h', entries(D._DESCR_EI_OSABI, E.ENUM_EI_OSABI), simple(osabi=None), 'os/abi:'))
+
+    # machine flags: every E_FLAGS constant of the machines the clone decodes
+    from elftools.elf.constants import E_FLAGS, E_FLAGS_MASKS
+    for mach, prefix, cls, label in ((40, 'EF_ARM_', 32, 'arm'), (8, 'EF_MIPS_', 32, 'mips'), (21, 'EF_PPC64_', 64, 'ppc64'),
+                                     (243, 'EF_RISCV_', 64, 'riscv'), (258, 'EF_LOONGARCH_', 64, 'loongarch')):
+        ents = [(k, v) for k, v in sorted(vars(E_FLAGS).items()) if k.startswith(prefix) and isinstance(v, int) and v]
+        ents += [(k, v) for k, v in sorted(vars(E_FLAGS_MASKS).items()) if k.startswith(prefix.replace('EF_', 'EFM_')) and isinstance(v, int) and v]
+        if mach == 40:
+            ents += [(k + '|EABI5', v | 0x05000000) for k, v in ents if not v & 0xff000000]
+
+        def fb(code, mach=mach, cls=cls):
+            return elfgen.build(cls=cls, le=True, machine=mach, etype=2, eflags=code,
+                                sections=[elfgen.Sec('.text', 1, flags=6, data=b'\x90' * 8, addr=0x1000)])[0]
+        T.append(('e_flags/' + label, '-h', ents, fb, ' flags:'))
 
     def secline(out, code):
         for ln in out.splitlines():
@@ -482,6 +496,48 @@ def descr_tables():
         return b
     T.append(('DT_FLAGS', '-d', [(k, v) for k, v in E.ENUM_DT_FLAGS.items() if isinstance(v, int)], dflag_builder(30), dynline))
     T.append(('DT_FLAGS_1', '-d', [(k, v) for k, v in E.ENUM_DT_FLAGS_1.items() if isinstance(v, int)], dflag_builder(0x6ffffffb), dynline))
+
+    # notes: every note type, ABI-tag OS and GNU property (bit) the clone has a description for, one note per file
+    NOTES = []
+
+    def prop(pt, data, al=8):
+        rec = struct.pack('<II', pt, len(data)) + data
+        return rec + b'\0' * (-len(rec) % al)
+    NOTES.append(('NT_GNU_HWCAP', 62, 2, struct.pack('<II', 1, 2) + b'\x01hw\0\0\0\0\0'))
+    NOTES.append(('NT_GNU_BUILD_ID', 62, 3, bytes(range(20))))
+    NOTES.append(('NT_GNU_GOLD_VERSION', 62, 4, b'gold 1.16'))       # as gold writes it: no terminator
+    for k, v in sorted(E.ENUM_NOTE_ABI_TAG_OS.items(), key=lambda kv: str(kv[1])):
+        if isinstance(v, int):
+            NOTES.append(('NT_GNU_ABI_TAG/' + k, 62, 1, struct.pack('<IIII', v, 3, 2, 0)))
+    NOTES.append(('GNU_PROPERTY_STACK_SIZE', 62, 5, prop(1, struct.pack('<Q', 0x100000))))
+    NOTES.append(('GNU_PROPERTY_NO_COPY_ON_PROTECTED', 62, 5, prop(2, b'')))
+    for label, pt, tab, mach in (('X86_FEATURE_1_AND', 0xc0000002, D._DESCR_NOTE_GNU_PROPERTY_X86_FEATURE_1_FLAGS, 62),
+                                 ('X86_FEATURE_2_USED', 0xc0010001, D._DESCR_NOTE_GNU_PROPERTY_X86_FEATURE_2_FLAGS, 62),
+                                 ('X86_ISA_1_NEEDED', 0xc0008002, D._DESCR_NOTE_GNU_PROPERTY_X86_ISA_1_FLAGS, 62),
+                                 ('X86_ISA_1_USED', 0xc0010002, D._DESCR_NOTE_GNU_PROPERTY_X86_ISA_1_FLAGS, 62),
+                                 ('AARCH64_FEATURE_1_AND', 0xc0000000, D._DESCR_NOTE_GNU_PROPERTY_AARCH64_FEATURE_1_AND, 183),
+                                 ('RISCV_FEATURE_1_AND', 0xc0000000, D._DESCR_NOTE_GNU_PROPERTY_RISCV_FEATURE_1_AND, 243)):
+        for m, dsc in tab:
+            NOTES.append(('GNU_PROPERTY_%s/%s' % (label, dsc), mach, 5, prop(pt, struct.pack('<I', m))))
+        allbits = 0
+        for m, dsc in tab:
+            allbits |= m
+        NOTES.append(('GNU_PROPERTY_%s/all' % label, mach, 5, prop(pt, struct.pack('<I', allbits))))
+
+    def note_builder(code):
+        label, mach, typ, desc = NOTES[code]
+        rec = struct.pack('<III', 4, len(desc), typ) + b'GNU\0' + desc + b'\0' * (-len(desc) % 4)
+        return elfgen.build(cls=64, le=True, machine=mach, etype=2,
+                            sections=[elfgen.Sec('.text', 1, flags=6, data=b'\x90' * 8, addr=0x1000),
+                                      elfgen.Sec('.note.probe', 7, flags=2, data=rec, align=8 if typ == 5 else 4, addr=0x2000)])[0]
+
+    def notelines(out, code):
+        lines = out.splitlines()
+        for i, ln in enumerate(lines):
+            if ln.strip().lower().startswith('owner'):
+                return '\n'.join(' '.join(x.split()).lower() for x in lines[i + 1:] if x.strip())
+        return None
+    T.append(('notes', '-n', [(n[0], i) for i, n in enumerate(NOTES)], note_builder, notelines))
 
     def reloc_builder(machine, cls, le, rela):
         def b(code):
@@ -820,7 +876,7 @@ def run_dwdescr(idx, rng, sh):
 # ---------------------------------------------------------------- generated files (envelope generators)
 def gen_families():
     from ..gen import dynobj
-    return [('versions', ['-V'], dynobj.gen_versions)]
+    return [('versions', ['-V', '-s', '-d', '-e'], dynobj.gen_versions), ('notes', ['-n'], dynobj.gen_notes_file)]
 
 
 def mask(line):
